@@ -1,6 +1,11 @@
 """C04 — see DESIGN.md section 7."""
 from tools.harness.core import Property
+from tools.props.weaver_units import WeaverUnit
 from tools.props.rfa_units import RfaUnit, FunfitUnit, AdaptiveWindowsUnit, RfaMetaUnit
+
+
+class WC04(WeaverUnit):
+    name = "weaver_c04"
 
 
 class P(Property):
@@ -8,7 +13,8 @@ class P(Property):
     gen_targets = ["Funfit", "RfaGlue"]
 
     def units(self, tier):
-        return [RfaUnit(("C04",))]
+        return [RfaUnit(("C04",)),
+                WC04(("C04",), ops=['recreate', 'recreate', 'shift_y', 'scale_y', 'append'], max_len=3, queries=False)]
 
 
 PROPERTY = P()
